@@ -175,6 +175,7 @@ func runC32(c *Ctx) []Obligation {
 			Why: "a claim whose expiration height is not above the block height is deleted before the sweep moves on"},
 	)
 	out := c.Rows(rows)
+	out = append(out, c.hookRowsBegin(P)...)
 	out = append(out,
 		c.whoMayCall(P, "award.callers", "(x/pocketcore/keeper.Keeper).AwardCoinsForRelays", []string{kK + `ExecuteProof`}, "relay rewards are paid only by ExecuteProof"),
 		c.whoMayCall(P, "execute.callers", fnExecProof, []string{`x/pocketcore\.handleProofMsg`}, "proofs are executed only by the proof handler"),
